@@ -133,7 +133,7 @@ func init() {
 	register(&Prop{
 		ID:         "C17",
 		Title:      "The SDK v1 and SDK v2 clients are behaviourally equivalent",
-		Decided:    "agreement of the two hand-duplicated adapters, method by method: (R1) for every operation implemented by both clients the normalised summaries agree – the set of guard events (lock, deferred unlock, failure test, request validation, placeholder validation, table lookup) and the core calls made; events present in only one client are reported one by one; (R2) every error code the core can emit has a case in the v2 error mapper that turns it into a typed SDK/smithy error (v1 callers get an awserr.Error for the same codes by construction); (R3) the description mappers cover the same fields in both clients; (R4) optional request pointers are never dereferenced without a nil test in either client; (R5) both clients implement the same set of operations; (R6) the arguments handed to the placeholder validation and the QueryInput built for searches have the same provenance in both clients; (R7) both adapters hand the shared engine the same internal value for the same logical attribute: S and N texts verbatim (= C10.R6) and, in the interface-based v2 conversions, the type-carrying field non-nil for every member case (= C10.R7) – an adapter-only difference here makes later expression evaluation succeed in one client and fail in the other; (R8) the batch-write validators of both clients implement the same limit – the total over all tables – and the same exactly-one-of rule (= C16.R7 evaluated per client); (R9) every error returned by an exported v2 operation is classified (nil / SDK / engine / bare / sentinel / configured) through helpers and the mapper: engine and bare classes never reach the caller; (R10) the failure switches act unconditionally in both clients (= C15.R4); (R11) pagination plumbing is the same in both clients (= C04.R1); (R12) no description retains the address of a loop variable (= C18.R9).",
+		Decided:    "agreement of the two hand-duplicated adapters, method by method: (R1) for every operation implemented by both clients the normalised summaries agree – the set of guard events (lock, deferred unlock, failure test, request validation, placeholder validation, table lookup) and the core calls made; events present in only one client are reported one by one; (R2) every error code the core can emit has a case in the v2 error mapper that turns it into a typed SDK/smithy error (v1 callers get an awserr.Error for the same codes by construction); (R3) the description mappers cover the same fields in both clients; (R4) optional request pointers are never dereferenced without a nil test in either client; (R5) both clients implement the same set of operations; (R6) the arguments handed to the placeholder validation and the QueryInput built for searches have the same provenance in both clients; (R7) both adapters hand the shared engine the same internal value for the same logical attribute: S and N texts verbatim (= C10.R6) and, in the interface-based v2 conversions, the type-carrying field non-nil for every member case (= C10.R7) – an adapter-only difference here makes later expression evaluation succeed in one client and fail in the other; (R8) the batch-write validators of both clients implement the same limit – the total over all tables – and the same exactly-one-of rule (= C16.R7 evaluated per client); (R9) every error returned by an exported v2 operation is classified (nil / SDK / engine / bare / sentinel / configured) through helpers and the mapper: engine and bare classes never reach the caller; (R10) the failure switches act unconditionally in both clients (= C15.R4); (R11) pagination plumbing is the same in both clients (= C04.R1); (R12) no description retains the address of a loop variable (= C18.R9); (R13) no list stored under a table name by either client's batch operations is shared between tables (= C19.R4 per-table clause, C19.R7).",
 		NotDecided: "value-level equality of the mapped outputs (C10), pagination keys (C04), and everything behind the shared core (identical by construction).",
 		Assumes:    []string{"ReturnValuesOnConditionCheckFailure exists only in SDK v2 (accepted difference)"},
 		Rules: []RuleDef{
@@ -161,6 +161,7 @@ func init() {
 			{ID: "R10", Desc: "the failure switches of both clients set and clear the failure unconditionally (= C15.R4): after the same toggle sequence both clients are in the same state", Run: aliasRule("R10", c15R4, nil)},
 			{ID: "R11", Desc: "both clients hand the engine's resume key on unconditionally and pass Limit and ExclusiveStartKey unchanged (= C04.R1)", Run: aliasRule("R11", c04R1, nil)},
 			{ID: "R12", Desc: "descriptions built in a loop do not alias the loop variable (= C18.R9): a composite key schema is described the same by both clients", Run: aliasRule("R12", c18R9, nil)},
+			{ID: "R13", Desc: "both clients report each table's own unprocessed requests and responses after a batch: no list stored under a table name is shared between tables (= C19.R4 per-table clause, C19.R7)", Run: aliasRule("R13", func(e *Engine) { c19R4(e); c19R7(e) }, func(c string) bool { return strings.Contains(c, "per-table") })},
 		},
 	})
 }
